@@ -35,6 +35,7 @@ type c16Ctx struct {
 	want     []c16Want // data frames submitted, in submission order (those whose callback reported success are expected on the wire)
 	pongs    []wsref.Frame
 	seed     int
+	holdAll  bool     // the transport completes nothing until every operation has been submitted
 	after    []func() // judgements that need the operation's completion: run after the final drain
 }
 
@@ -46,6 +47,9 @@ type c16Want struct {
 // settle: normally the transport completes the deferred write before the next operation starts; as a deviation
 // it stays in flight, so that the next asynchronous operation overlaps it (the stream has to serialise them).
 func (c *c16Ctx) settle() {
+	if c.holdAll {
+		return
+	}
 	if c.deferred && c.x.Deviate(2, "the write stays in flight while the next operation starts") == 1 {
 		return
 	}
@@ -213,9 +217,21 @@ func c16Body(tier string) func(x *engine.X) {
 	full := c16Menu([]int{1, 0, 125, 126, 65535, 65536, c16Max, c16Max + 1})
 	small := c16Menu([]int{1, 0, 126, 200})
 	return func(x *engine.X) {
-		mode := x.Pick(3, "transport mode")
+		mode := x.Pick(4, "transport mode")
 		nops := 1 + x.Pick(3, "number of operations")
 		c := &c16Ctx{x: x, vs: vstream.New()}
+		var queue []c16Op
+		if mode == 3 {
+			// a blocked transport: the first asynchronous write stays in flight and everything submitted after it
+			// queues up behind it (3 to 5 frames deep), then the transport drains; asynchronous operations only
+			c.deferred, c.holdAll = true, true
+			nops = 4 + x.Pick(2, "operations queued behind the blocked write")
+			for _, op := range small {
+				if op.async {
+					queue = append(queue, op)
+				}
+			}
+		}
 		switch mode {
 		case 1:
 			c.deferred = true
@@ -245,6 +261,9 @@ func c16Body(tier string) func(x *engine.X) {
 				menu := full
 				if (tier != "thorough" && nops == 3) || (i == 2) {
 					menu = small
+				}
+				if queue != nil {
+					menu = queue
 				}
 				op := menu[x.Pick(len(menu), "operation")]
 				names = append(names, op.name)
